@@ -211,6 +211,21 @@ Theorem levels_to_zero :
   forall nlevels, 0 < nlevels -> levels_range None (Some 0) nlevels = [0].
 Proof. exact levels_range_to_zero. Qed.
 
+(* A task with a configured coverage (complete_extent False) is always cleaned by the tile walk, whatever the
+   backend: the per-level shortcuts (directory walk, bulk delete) never see a coverage. *)
+Theorem coverage_task_walks :
+  forall b t, t_skip t = false -> t_complete t = false -> strategy b t = SWalk.
+Proof. exact coverage_task_walks_l. Qed.
+
+(* Per-level sqlite cache: removing level l entirely (unlink "<l>.mbtile" and glob "<l>.mbtile-*") never unlinks
+   the database file of another level l' nor a file named "<l'>.mbtile<suffix>" (its -wal/-shm/-journal
+   companions), for all non-negative levels: level 1 does not take 10.mbtile .. 19.mbtile along. *)
+Theorem level_files_apart :
+  forall l l' suffix,
+    0 <= l -> 0 <= l' -> l <> l' ->
+    unlinked_with_level l (String.append (level_file l') suffix) = false.
+Proof. exact level_files_apart. Qed.
+
 (* ---- refuted: the side condition dim_visible is necessary (known finding F15, reproduced on the implementation) *)
 
 (* F15: directory strategy skips dimension directories. *)
